@@ -161,7 +161,8 @@ def run_batch(spec, tier, base_seed, n_runs, wall_budget, per_run_timeout=120, s
     chunks = [seeds[i:i + chunk] for i in range(0, len(seeds), chunk)]
     ctx = multiprocessing.get_context('fork')
     faulthandler.enable()
-    with cf.ProcessPoolExecutor(max_workers=nproc, mp_context=ctx) as ex:
+    ex = cf.ProcessPoolExecutor(max_workers=nproc, mp_context=ctx)
+    try:
         pending = set()
         it = iter(chunks)
         exhausted = False
@@ -187,15 +188,28 @@ def run_batch(spec, tier, base_seed, n_runs, wall_budget, per_run_timeout=120, s
             if stop:
                 for f in pending:
                     f.cancel()
-                # wait for the running ones
-                for f in list(pending):
-                    if not f.cancelled():
+                # give the chunks that are already running a bounded grace period, then abandon them
+                grace = time.time() + min(45, per_run_timeout)
+                live = [f for f in pending if not f.cancelled()]
+                while live and time.time() < grace:
+                    done, _ = cf.wait(live, timeout=2, return_when=cf.FIRST_COMPLETED)
+                    for f in done:
                         try:
-                            for s in f.result(timeout=per_run_timeout * 2):
+                            for s in f.result():
                                 agg.add(s)
                         except Exception:
                             pass
+                    live = [f for f in live if not f.done()]
+                agg.abandoned_chunks = len(live)
                 break
+    finally:
+        procs = list(getattr(ex, '_processes', {}).values())
+        ex.shutdown(wait=False, cancel_futures=True)
+        for pr in procs:
+            try:
+                pr.terminate()
+            except Exception:
+                pass
     agg.wall = time.time() - t0
     return agg
 
